@@ -69,6 +69,8 @@ func checkC01(c *Ctx) {
 	lockBalance(c, func(cl string) bool { return strings.HasPrefix(cl, "topics.") }, "topic-store")
 	// what goes out has the length Len() says and the bytes the encoder counted (T1 length tables, B14)
 	c.codecLengthTables()
+	// a connection holds the subscriptions of its own session: a clean-session CONNECT does not inherit the stored ones
+	c.getSessionContract()
 }
 
 // fanOut: the delivery loop of a publish. The rule works on the supergraph of fn with its
